@@ -133,7 +133,9 @@ def run_bounded(res):
         'with the explicit-missing-file base, an empty base file or an unreadable argument. Files: two notebook triples from the nbspace grammar (<= 3 edits a side) under '
         'names with sub-directory, blank and non-ASCII characters, four non-notebook files, a directory, places outside cwd. Sequences: 3-7 requests from {valid diff, valid '
         'merge, store of a notebook with extra path-like fields in body/query, malformed diff/merge/store (not JSON, JSON non-object, missing key, non-string argument, '
-        'non-notebook file, unknown path, unreachable URL, merged not a notebook), unknown URL, API path outside base_url, wrong method, page GET, shutdown}; an honoured '
+        'non-notebook file, unknown path, unreachable URL, merged not a notebook), unknown URL, API path outside base_url, wrong method, page GET, shutdown}; in 40% of the '
+        'sessions that read files by name, one valid diff/merge request is followed by the event "that input notebook is saved again with one character changed, same '
+        'length, same modification time" and by the same request again; an honoured '
         'shutdown only as last request; every sequence has at least one request to serve and one to turn down. Per request: library oracle in a pristine forked process '
         '(patch_notebook and contracts/specs.apply on the returned base+diff against the file nbformat reads; decide_notebook_merge with the mergetool strategy), full-tree '
         'snapshot (names, kinds, modes, contents) before/after, IOLoop.stop recorder; per request after the first: same request to a fresh server in a fresh forked process '
@@ -146,6 +148,32 @@ def run_bounded(res):
     res.assumptions.append('nbformat.read(as_version=4) defines which notebook a file holds; tornado\'s HTTP server/client transport requests faithfully')
     res.assumptions.append('a process forked from one that imported but never called nbdime has the state of a freshly started server process')
     res.assumptions.append('a valid diff/merge request answered 5xx is not counted when the library call on the same notebooks also raises in a fresh process (C02/C03)')
+
+
+def web_part(res, prefixes, salt, clause):
+    """the same harness on behalf of another property: only failures whose kind starts with one of `prefixes` are that
+    property's business (C09: the served decisions are the library's; C12: the N-th answer equals a fresh server's)"""
+    q = res.tier == 'quick'
+    jobs = [(res.seed * 8191 + 17 * s + salt, 8 if q else 60) for s in range(32 if q else 96)]
+    seen = set()
+    n = 0
+    for cnt, fails, keys, samples, st, nts in common.pmap(_job, jobs):
+        n += cnt
+        res.evaluations += cnt
+        res.nontrivial.update(keys)
+        for kind, text, where in fails:
+            if text is None or not any(kind.startswith(p) for p in prefixes):
+                continue
+            coarse = ':'.join(kind.split(':')[:2])
+            if coarse in seen:
+                continue
+            seen.add(coarse)
+            res.violation('%s [%s]' % (text, kind), dict(where, replay_kind='call', module='checks.c20_bounded', function='replay_case', args=[where]))
+    res.coverage['web_sessions'] = n
+    res.coverage['rule'] = res.coverage.get('rule', '') + (
+        ' Web sessions (harness of C20, bounded/c20_web.py): real init_app servers in the four tool modes, seeded request sequences incl. an input '
+        'notebook saved again between two identical requests (same length, same modification time); ' + clause)
+    res.assumptions.append('web sessions run against the jupyter_server/jinja2/requests stubs of /verif/stubs; bounded: %d sessions' % n)
 
 
 run = run_bounded
